@@ -240,7 +240,7 @@ def coq_list(items, per_line=4, indent='    '):
     return '[\n' + ';\n'.join(lines) + ' ]'
 
 
-def tables():
+def _tables_live():
     """-> dict cat -> dict(variants, get_all, table, analyze_arms, analyze_wild, section_arms, section_wild, doc, toml)"""
     toml = toml_sample(os.path.join(REPO, 'Solstat.toml'))
     out = {'toml_path': toml['path']}
@@ -269,7 +269,7 @@ def tables():
 
 
 def generate():
-    T = tables()
+    T = _tables_live()
     L = ['(* GENERATED by tools/names2coq.py from /repo/src/analyzer/*/mod.rs, src/report/*_report.rs,',
          '   docs/identified-*.md and Solstat.toml.  Do not edit: rewritten on every check run. *)',
          'From Coq Require Import List String Ascii NArith.',
@@ -320,3 +320,9 @@ if __name__ == '__main__':
         print(json.dumps(tables(), indent=1))
     else:
         sys.stdout.write(generate())
+
+
+def tables():
+    """live tables, or (when the source can no longer be read) the snapshot of the last readable tree"""
+    import vlib
+    return vlib.with_snapshot('names2coq_tables', _tables_live)
